@@ -42,6 +42,15 @@ let () =
       let tok = unhx f.(3) in
       let m = method_of tok in
       "P=" ^ hex_of_bytes (method_name m) ^ "\tK=" ^ (match m with MKnown i -> string_of_int (int_of_nat i) | MOther _ -> "-")
+    | "na" ->
+      (* kind | display (hex or -) | uri ... : the quoted display name as the model prints it, and what its parser reads back *)
+      let a = Array.of_list (split_on '|' f.(3)) in
+      if Array.length a < 2 || a.(1) = "-" then "Q=-" else
+      let name = unhx a.(1) in
+      let q = print_display name in
+      (match parse_display (q @ bytes_of_string "<sip:x>") with
+       | Some (n, _) -> "Q=" ^ hex_of_bytes q ^ "\tN=" ^ hx n
+       | None -> "Q=" ^ hex_of_bytes q ^ "\tN=ERR")
     | "msg" ->
       let a = Array.of_list (split_on '|' f.(3)) in
       let line = unhx a.(0) in
